@@ -1,11 +1,13 @@
 """C03 — multistream-select negotiation (models: Model/Mss/*.lean, adapter: src/verif/c03.rs)."""
+import random
+
 from .common import bump
 
 ID = "C03"
 AREA = "c03"
 LEAN_PROPS = "Litep2pVerif.Props.C03"
 THEOREMS = ["msg_roundtrip", "varint_roundtrip", "framing_transparent", "framing_progress", "framing_writer_exact",
-            "negotiate_terminates", "negotiate_confluent", "negotiate_agree", "into_inner_safe",
+            "flush_reaches_peer", "flush_completes", "negotiate_terminates", "negotiate_confluent", "negotiate_agree", "into_inner_safe",
             "webrtc_safe", "webrtc_agree", "fallback_reported_as_main"]
 CONSTS = ["MSS_MAX_PROTOCOLS", "MSS_MAX_LEN_BYTES", "MSS_MAX_FRAME_SIZE_MINUS", "MSS_MSG_MULTISTREAM_1_0",
           "MSS_MSG_PROTOCOL_NA", "MSS_MSG_LS", "MSS_PROTO_MULTISTREAM_1_0"]
@@ -31,10 +33,21 @@ MANIFEST = {
             "(msg_roundtrip, varint_roundtrip); the LengthDelimited reader returns exactly the frames written and consumes "
             "exactly their bytes for every chunking and Pending placement, returns every frame once the carrier has made as "
             "many non-Pending deliveries as the frames have bytes (measure: frame bytes in flight), and the writer loses "
-            "nothing (framing_transparent, framing_progress, framing_writer_exact); the composition of DialerSelectFuture (V1 "
+            "nothing (framing_transparent, framing_progress, framing_writer_exact); the carrier's write half has a staging "
+            "buffer (write-behind transports such as a noise socket or a buffered websocket stream: bytes accepted by poll_write "
+            "reach the peer only when the carrier's own poll_flush completes) and Sink::poll_flush of LengthDelimited "
+            "(poll_write_buffer, then the inner poll_flush whose answer is returned) is modelled poll by poll: for every "
+            "schedule of inner write choices and every schedule of Pending/Ready answers of the inner flush, from every state "
+            "(including an empty write buffer with bytes still staged by an earlier Pending poll) and for any number of polls, "
+            "Ready(Ok) means that every byte written before is visible to the peer, nothing is staged and the write buffer is "
+            "empty (flush_reaches_peer), before that a write-behind carrier shows the peer nothing (framing_transparent), and a "
+            "flush that is polled again returns Ready once the carrier takes the bytes and completes one flush (flush_completes, "
+            "measure |write schedule| + |flush schedule|); the composition of DialerSelectFuture (V1 "
             "and V1Lazy, incl. Negotiated::expecting) and ListenerSelectFuture over two FIFO channels terminates under an "
             "explicit measure, is confluent, and every maximal execution ends with both sides reporting the dialer's first "
-            "supported name or both failing (negotiate_terminates, negotiate_confluent, negotiate_agree, into_inner_safe); the "
+            "supported name or both failing (negotiate_terminates, negotiate_confluent, negotiate_agree, into_inner_safe; a "
+            "flush step of the composition is the re-polled byte-level flush, which delivers everything at once on a "
+            "write-behind carrier and is assumed to complete: flush_completes); the "
             "message-based pair WebRtcDialerState::{propose, propose_next_fallback, register_response} / "
             "webrtc_listener_negotiate ends, for every main name (<= MAX_FRAME_SIZE-23 bytes), fallback list (<= MAX_FRAME_SIZE-3 "
             "bytes each), listener list and every grouping of the messages into payloads, with Succeeded(p)/Accepted(p) for the "
@@ -44,7 +57,11 @@ MANIFEST = {
             "(webrtc_safe); ProtocolSet::new + report_substream_open report a fallback name to its main protocol with "
             "fallback=Some(name), a main name as itself, anything else as unsupported (fallback_reported_as_main). Tie: the "
             "real futures run against each other, against scripted raw peers and against the reference implementation "
-            "multistream-select 0.13.0 in either role (both versions) over an in-memory duplex with scripted chunking/Pending; "
+            "multistream-select 0.13.0 in either role (both versions) over an in-memory duplex with scripted chunking/Pending, "
+            "write-through or write-behind per direction (wb: written bytes are staged until a poll_flush of that end returns "
+            "Ready; scripted Pending answers of the flush exactly at the negotiation frames), with test applications that "
+            "close after writing, await the peer's payload before closing, or read the request first; the real LengthDelimited "
+            "sink / LengthDelimitedReader is also driven poll by poll (sink) and compared with the byte-level model; "
             "the message-based functions and the real ProtocolSet::report_substream_open are driven through the adapter; all "
             "compared with the model; the literal byte strings (/multistream/1.0.0\\n, na\\n, ls\\n, the header protocol "
             "name) and the numeric limits are extracted from the Rust sources on every run.",
@@ -60,7 +77,14 @@ MANIFEST = {
 RULE = ("seeded cases of 1-6 operations: enc/dec of grammar-generated and mutated messages; negotiate (real dialer and listener "
         "futures against each other, V1 and V1Lazy, name lists from a grammar with disjoint/nested/long/duplicate/fallback/"
         "invalid names, random chunk sizes incl. 1-byte chunks and Pending injections on all four stream halves, random poll "
-        "order, payloads written right after negotiation); dial/listen against a scripted raw peer (well-formed transcripts with "
+        "order, payloads written right after negotiation); every fifth case runs over a WRITE-BEHIND carrier on one or both "
+        "directions (negotiate/refneg/dial/listen with dwb/lwb/wb=1: bytes accepted by poll_write are staged until a poll_flush "
+        "of that end returns Ready) with flush scripts of 0-3 Pendings in front of each Ready, i.e. exactly at the flushes of the "
+        "negotiation frames and of the payload, and with the applications awaiting the peer's payload before closing (wrx) or the "
+        "listener reading the request first (rw); sink (the real LengthDelimited Sink and LengthDelimitedReader over the staging "
+        "carrier poll by poll: start_send, poll_flush, poll_close, into_reader, poll_write; oracle: Ready(Ok) from a flush/close "
+        "poll means every byte written before is visible to the peer, and the carrier got a prefix of what was written in "
+        "order); dial/listen against a scripted raw peer (well-formed transcripts with "
         "trailing application bytes, and mutated/truncated ones); refneg (the real dialer resp. listener against the "
         "listener resp. dialer of multistream-select 0.13.0, same scripting); the message-based pair and its functions "
         "(names at the exact length bounds); report (real ProtocolSet with 0-4 protocols and 0-3 fallback names each, "
@@ -73,6 +97,9 @@ TRUSTED_BASE = ["Lean 4.33 kernel", "axioms: propext, Classical.choice, Quot.sou
                 "Driver/C03.lean byte-level composition (machines + specification-level frame parser + test application)",
                 "unsigned-varint 0.8 decode!/encode modelled by hand (tied by dec/wlisten/wresp on malformed bytes)"]
 ASSUMPTIONS = ["the carrier is a reliable FIFO byte stream that accepts or delivers at least one byte when it is not Pending",
+               "the carrier may stage written bytes until its poll_flush completes (write-behind); a flush (or close) that is "
+               "polled again after Pending eventually returns Ready, and a Pending registers a wake-up; closing a carrier "
+               "flushes what it stages; bytes staged in an end that is dropped without a completed flush are lost",
                "V1Lazy: application data written before the confirmation does not itself parse as a multistream-select "
                "message (documented pitfall of Version::V1Lazy); such cases are compared with the model but not judged",
                "names given to the message-based functions, to ProtocolSet and to the reference implementation are UTF-8 "
@@ -440,6 +467,109 @@ def ops_report(rng):
     return ops
 
 
+def flush_script(rng, flushes=None):
+    """Answers of successive inner `poll_flush` calls: for each of the next few flush operations of an end, a run of
+    0-3 `Pending`s (0) and then the `Ready` (1) — the Pendings sit exactly where the negotiation frames (and later the
+    payload) are flushed; a caller that polls again consumes the run one by one."""
+    out = []
+    for _ in range(flushes if flushes is not None else rng.randrange(1, 7)):
+        out += ["0"] * rng.choice([0, 1, 1, 1, 2, 3]) + ["1"]
+    if rng.random() < 0.15:
+        out = ["0"] * rng.randrange(1, 5) + out
+    return ",".join(out)
+
+
+def wb_args(rng, refneg_role=None):
+    """Write-behind carrier on one or both directions, flush scripts for both ends, and the order in which the test
+    applications read and write (the peer's payload awaited before closing / the listener reading the request first)."""
+    which = rng.choice(["d", "l", "dl", "dl"])
+    a = ""
+    if "d" in which:
+        a += " dwb=1"
+    if "l" in which:
+        a += " lwb=1"
+    a += f" df={flush_script(rng)} lf={flush_script(rng)}"
+    r = rng.random()
+    # the reference side runs its own (write-first) application: modes only for the litep2p side
+    dmodes = ["wrx"] if refneg_role in (None, "dial") else []
+    lmodes = ["wrx", "rw"] if refneg_role in (None, "listen") else []
+    if r < 0.6:
+        if dmodes and rng.random() < 0.6:
+            a += " dapp=" + rng.choice(dmodes)
+        if lmodes and rng.random() < 0.6:
+            a += " lapp=" + rng.choice(lmodes)
+    return a
+
+
+def calm(rng):
+    """A write script for write-behind cases: often none, so that the flush answers alone decide."""
+    return "-" if rng.random() < 0.5 else script(rng)
+
+
+def op_negotiate_wb(rng):
+    """`negotiate` over a write-behind carrier: short name lists (one to three rounds), Pending flushes at the frames."""
+    ver = rng.choice(["v1", "lazy"])
+    dialer = [rng.choice(BASE[:11]) for _ in range(rng.randrange(1, 4))]
+    listener = [rng.choice(BASE[:11]) for _ in range(rng.randrange(0, 3))]
+    if rng.random() < 0.7:
+        listener.insert(rng.randrange(len(listener) + 1), rng.choice(dialer))
+    if rng.random() < 0.1:
+        dialer[rng.randrange(len(dialer))] = rng.choice(LONG)
+    order = "".join(rng.choice("dl") for _ in range(rng.randrange(1, 12)))
+    return (f"negotiate ver={ver} dialer={hl(dialer)} listener={hl(listener)} dpay={hx(payload(rng))} lpay={hx(payload(rng))} "
+            f"dr={calm(rng)} dw={calm(rng)} lr={calm(rng)} lw={calm(rng)} order={order}"
+            + (" vec=1" if rng.random() < 0.2 else "") + wb_args(rng))
+
+
+def op_refneg_wb(rng):
+    base = op_refneg(rng)
+    role = kvs(base.split()[1:])["role"]
+    return base + wb_args(rng, role)
+
+
+def op_scripted_wb(rng):
+    return op_scripted(rng) + f" wb=1 f={flush_script(rng)}"
+
+
+def op_sink(rng):
+    """The write half of LengthDelimited poll by poll over the (write-behind) carrier: frames, flush polls, optionally the
+    conversion into a LengthDelimitedReader with application writes, flush and close polls."""
+    ops = []
+    r = rng.random()
+    def fr():
+        k = rng.random()
+        if k < 0.1:
+            return b""
+        if k < 0.16:
+            return bytes([rng.randrange(256)]) * rng.choice([MAX_FRAME, MAX_FRAME + 1, MAX_FRAME - 1, 200])
+        return bytes(rng.randrange(256) for _ in range(rng.randrange(1, 24)))
+    for _ in range(rng.randrange(1, 4)):
+        for _ in range(rng.randrange(0, 3)):
+            ops.append("s:" + fr().hex())
+        ops += ["p"] * rng.randrange(1, 6)
+    if r < 0.5:
+        ops.append("r")
+        for _ in range(rng.randrange(1, 4)):
+            ops.append("w:" + bytes(rng.randrange(256) for _ in range(rng.randrange(0, 9))).hex())
+            ops += ["p"] * rng.randrange(0, 4)
+    if rng.random() < 0.5:
+        ops += ["c"] * rng.randrange(1, 5)
+    w = "-" if rng.random() < 0.4 else ",".join(str(rng.choice([0, 0, 1, 1, 2, 3, 5, 17, 20000])) for _ in range(rng.randrange(1, 12)))
+    return f"sink wb={rng.choice([0, 1, 1])} w={w} f={flush_script(rng, rng.randrange(0, 5)) or '-'} ops={','.join(ops)}"
+
+
+def gen_wb_case(rng):
+    """Cases for the write-behind carrier (a transport that stages writes until its flush completes)."""
+    k = rng.random()
+    if k < 0.45:
+        return [op_negotiate_wb(rng) for _ in range(rng.randrange(1, 3))]
+    if k < 0.65:
+        return [op_refneg_wb(rng) for _ in range(rng.randrange(1, 3))]
+    if k < 0.78:
+        return [op_scripted_wb(rng) for _ in range(rng.randrange(1, 3))]
+    return [op_sink(rng) for _ in range(rng.randrange(1, 3))]
+
+
 def gen_case(rng):
     k = rng.random()
     if k < 0.06:
@@ -470,13 +600,27 @@ def corpus():
         [f"refneg role={r} ver={v} dialer={hl([a, b])} listener={hl([b, c])} dpay=0102 lpay=0304 dr={one} dw={one} lr={one} lw={one} order=dl"
          for r in ("dial", "listen") for v in ("v1", "lazy")],
         [f"refneg role={r} ver={v} dialer={hl([a])} listener={hl([b, c])} dpay=ff lpay=0304" for r in ("dial", "listen") for v in ("v1", "lazy")],
+        # write-behind carrier: the inner flush is Pending exactly when the negotiation frames are flushed
+        [f"negotiate ver={v} dialer={hl([a, b])} listener={hl([b, c])} dpay=0102 lpay=0304 dwb=1 lwb=1 df=0,1,0,0,1 lf=0,1,0,1,0,1"
+         for v in ("v1", "lazy")],
+        [f"negotiate ver={v} dialer={hl([b])} listener={hl([b, c])} dpay=0102 lpay=0304 dwb=1 lwb=1 df=0,1 lf=0,0,1 dapp=wrx lapp={m}"
+         for v in ("v1", "lazy") for m in ("wrx", "rw")],
+        [f"refneg role={r} ver={v} dialer={hl([a, b])} listener={hl([b, c])} dpay=0102 lpay=0304 dwb=1 lwb=1 df=0,1,0,1 lf=0,1,0,1"
+         for r in ("dial", "listen") for v in ("v1", "lazy")],
+        ["sink wb=1 w=1,1,0,5 f=0,0,1 ops=s:0708,p,p,p,p,p,s:09,p,p,c", "sink wb=1 w=- f=0,1 ops=s:0708,r,w:aabb,p,p,c",
+         "sink wb=0 w=2,0 f=0 ops=s:0708,p,p,p"],
     ]
 
 
 def gen_cases(rng, tier):
     n = {"quick": 700, "thorough": 40000, "search": 3000}[tier]
-    for _ in range(n):
+    # the write-behind cases draw from their own stream (derived from the seed without consuming from `rng`), so that
+    # the cases of `gen_case` — shared with C19's `extra_cases` — are the same sequence as before
+    wb_rng = random.Random(repr(rng.getstate()[1][:8]))
+    for i in range(n):
         yield gen_case(rng)
+        if i % 4 == 3:
+            yield gen_wb_case(wb_rng)
 
 
 def mutate_case(rng, case, n):
@@ -488,6 +632,10 @@ def mutate_case(rng, case, n):
             j = rng.randrange(1, len(t))
             if "=" in t[j] and t[j].split("=")[0] in ("dr", "dw", "lr", "lw", "r", "w"):
                 t[j] = t[j].split("=")[0] + "=" + script(rng)
+            elif "=" in t[j] and t[j].split("=")[0] in ("df", "lf", "f"):
+                t[j] = t[j].split("=")[0] + "=" + (flush_script(rng) or "-")
+            elif t[j].split("=")[0] in ("dwb", "lwb", "wb"):
+                t[j] = t[j].split("=")[0] + "=" + rng.choice(["0", "1"])
             elif t[j].startswith("ver="):
                 t[j] = "ver=" + rng.choice(["v1", "lazy"])
             c[i] = " ".join(t)
@@ -587,6 +735,27 @@ def oracle(case, out):
                     v("disagree", f"reported a protocol that was never offered: {r.get('r')}", i)
                 elif frame(name + b"\n") not in unhx(a.get("peer", "-")):
                     v("disagree", f"reported {r.get('r')} although the peer never sent that name", i)
+        elif t[0] == "sink":
+            if o == "bad-op":
+                continue
+            obs = o.split()[0]
+            r = kvs(o.split()[1:])
+            ops = [x for x in a.get("ops", "-").split(",") if x and x != "-"]
+            res = [] if obs == "-" else obs.split(",")
+            sent = b""          # what the writer has been given so far: frames submitted, application bytes accepted
+            flagged = False
+            for x, y in zip(ops, res):
+                if x.startswith("s:") and y == "ok":
+                    sent += frame(bytes.fromhex(x[2:]))
+                elif x.startswith("w:") and y.startswith("W"):
+                    sent += bytes.fromhex(x[2:])[:int(y[1:].split("/")[0])]
+                elif x in ("p", "c") and y.startswith("R/") and int(y[2:]) != len(sent) and not flagged:
+                    flagged = True
+                    v("flush", f"poll_{'flush' if x == 'p' else 'close'} returned Ready(Ok) with {y[2:]} bytes visible to the peer, "
+                               f"{len(sent)} were written before", i)
+            vis, acc = unhx(r.get("vis", "-")), unhx(r.get("acc", "-"))
+            if not (sent.startswith(acc) and acc.startswith(vis)):
+                v("payload", f"the carrier got {hx(acc)[:80]} (visible {hx(vis)[:80]}), the writer was given {hx(sent)[:80]}", i)
         elif t[0] == "wpropose":
             if o.startswith("ok:"):
                 m_ = unhl(a.get("main", "-"))
@@ -672,10 +841,16 @@ def stats(case, out, acc):
         if t[0] in ("negotiate", "refneg"):
             r = kvs(o.split())
             a = kvs(t[1:])
+            if t[0] == "refneg" and (a.get("dwb") == "1" or a.get("lwb") == "1"):
+                bump(acc, "refneg:write-behind")
             if t[0] == "refneg":
                 bump(acc, f"refneg:litep2p-{a.get('role')}:{a.get('ver')}:d={r.get('d', '?')[:3]}:l={r.get('l', '?')[:3]}")
                 continue
             bump(acc, f"negotiate:{a.get('ver')}:d={r.get('d', '?')[:3]}:l={r.get('l', '?')[:3]}")
+            if a.get("dwb") == "1" or a.get("lwb") == "1":
+                bump(acc, "negotiate:write-behind")
+                if "0" in (a.get("df", "-") + "," + a.get("lf", "-")).split(","):
+                    bump(acc, "negotiate:write-behind:flush-pending")
             for k in ("dr", "dw", "lr", "lw"):
                 s = a.get(k, "-")
                 if s != "-" and set(s.split(",")) <= {"1"}:
@@ -686,6 +861,8 @@ def stats(case, out, acc):
                 bump(acc, "negotiate:long-name")
         elif t[0] in ("dial", "listen"):
             bump(acc, f"{t[0]}:{kvs(o.split()).get('r', '?')[:6]}")
+        elif t[0] == "sink":
+            bump(acc, "sink:" + ("ready" if "R/" in o else "pending-only"))
         elif t[0] == "dec":
             bump(acc, "dec:" + o.split(":")[0][:12])
         elif t[0].startswith("w"):
@@ -695,7 +872,7 @@ def stats(case, out, acc):
 
 
 def nontrivial(case, out):
-    return any(" l=ok:" in o or "r=ok:" in o or o.startswith("proto") or "succeeded" in o or o.startswith("accepted")
+    return any(" l=ok:" in o or "r=ok:" in o or "R/" in o or o.startswith("proto") or "succeeded" in o or o.startswith("accepted")
                or o.startswith("ok to=") for o in out)
 
 
